@@ -320,9 +320,11 @@ func ktext(k tokKey) string { return fmt.Sprintf("(%d, %d)", k.tree, k.run) }
 
 // noteRemoval mirrors the model's channel numbering: a removal that became
 // scheduled during the last action got the next channel id.
-func (w *world) noteRemoval(i int, before bool, long bool) {
-	after := w.ovX.VerifRemovalPending(w.trees[i].ID)
-	if !before && after {
+func (w *world) noteRemoval(i int, before string, long bool) {
+	// [before] / after identify the scheduled removal: a removal that was cancelled and another one
+	// scheduled within one action is a new removal as well
+	after := w.ovX.VerifRemovalChan(w.trees[i].ID)
+	if after != "" && after != before {
 		w.chanOf[i] = w.next
 		w.next++
 		// the removal goroutine reads the store's timeout when it starts: wait for that,
@@ -384,7 +386,7 @@ func (w *world) exec(s step) {
 	case "tree":
 		fd := w.sched.Block("overlay.flushDone", 1, w.matchTree(s.Tree))
 		w.setTimer(s.Tree, s.Long)
-		before := w.ovX.VerifRemovalPending(tr.ID)
+		before := w.ovX.VerifRemovalChan(tr.ID)
 		w.ovX.RegisterTree(tr)
 		w.emit(fmt.Sprintf("LocalTree %d", s.Tree), false)
 		w.flushed(s.Tree, fd)
@@ -397,7 +399,7 @@ func (w *world) exec(s step) {
 			ts = w.sched.Block("overlay.treeSet", 1, w.matchTree(s.Tree))
 		}
 		w.setTimer(s.Tree, s.Long)
-		before := w.ovX.VerifRemovalPending(tr.ID)
+		before := w.ovX.VerifRemovalChan(tr.ID)
 		type res struct {
 			pi  onet.ProtocolInstance
 			err error
@@ -422,7 +424,7 @@ func (w *world) exec(s step) {
 			if w.failed == "" {
 				w.exec(step{Op: "done", Tree: s.Tree, Run: s.Mid, Long: s.Long})
 			}
-			before = w.ovX.VerifRemovalPending(tr.ID)
+			before = w.ovX.VerifRemovalChan(tr.ID)
 			ts.Release()
 		}
 		var r res
@@ -496,7 +498,7 @@ func (w *world) exec(s step) {
 			return
 		}
 		w.setTimer(s.Tree, s.Long)
-		before := w.ovX.VerifRemovalPending(tr.ID)
+		before := w.ovX.VerifRemovalChan(tr.ID)
 		f.gate.Release()
 		select {
 		case <-f.done:
@@ -520,7 +522,7 @@ func (w *world) exec(s step) {
 		pk := w.sched.Block("overlay.parked", 1, w.matchTree(s.Tree))
 		fd := w.sched.Block("overlay.flushDone", 1, w.matchTree(s.Tree))
 		w.setTimer(s.Tree, s.Long)
-		before := w.ovX.VerifRemovalPending(tr.ID)
+		before := w.ovX.VerifRemovalChan(tr.ID)
 		f.gate.Release()
 		if !pk.WaitHit(wait) {
 			w.failed = "message was not parked"
@@ -572,7 +574,7 @@ func (w *world) exec(s step) {
 		state := w.ovX.VerifTreeState(tr.ID)
 		fd := w.sched.Block("overlay.flushDone", 1, w.matchTree(s.Tree))
 		w.setTimer(s.Tree, s.Long)
-		before := w.ovX.VerifRemovalPending(tr.ID)
+		before := w.ovX.VerifRemovalChan(tr.ID)
 		env := &network.Envelope{
 			ServerIdentity: tr.Root.Children[0].ServerIdentity,
 			MsgType:        onet.ResponseTreeMsgID,
@@ -607,7 +609,7 @@ func (w *world) exec(s step) {
 			}
 		}
 		w.setTimer(s.Tree, s.Long)
-		before := w.ovX.VerifRemovalPending(tr.ID)
+		before := w.ovX.VerifRemovalChan(tr.ID)
 		p.Done()
 		n := len(w.acts)
 		w.emit("Done "+ktext(k), false)
@@ -713,7 +715,7 @@ func (w *world) exec(s step) {
 				w.exec(step{Op: "done", Tree: s.Tree, Run: s.Run, Long: s.Long})
 			}
 		}
-		before := w.ovX.VerifRemovalPending(tr.ID)
+		before := w.ovX.VerifRemovalChan(tr.ID)
 		gl.Release()
 		for _, f := range []*flight{f2, f1} {
 			select {
